@@ -133,19 +133,40 @@ def check(ix, rep):
         else:
             rep.fail('R-OPSUM', f.module.rel, '%s.update' % c.name, 'dense-online:%s' % nc, 'operator %s: %s' % (nc, opref.diff(nf, want) if nf[0] != 'unknown' else nf[1]), f.node.lineno)
     rep.floor('dense online operators summarised', decided, 18)
-    for nc in ('TimedOnce', 'TimedHistorically', 'Since', 'TimedSince'):
+    # 4. the sliding-window kernels of once[a,b] / historically[a,b]: merge step over the order domain, influence interval
+    from sa.rules import stackstep as SS
+    nst = 0
+    for nc, opn in (('TimedOnce', 'once'), ('TimedHistorically', 'historically')):
         c = ops.get(nc)
-        if c is not None:
-            f = c.methods['update']
-            rep.undecided('R-OPSUM', f.module.rel, '%s.update' % c.name, 'dense-online:%s' % nc, 'carry-over of pending intervals is numeric and not summarised', f.node.lineno)
+        if c is None:
+            rep.error('dense-time online operation of %s vanished' % nc)
+            continue
+        f = c.methods['update']
+        rep.analysed(f)
+        nst += SS.check_function(ix, rep, f, opn, slot_prefix='dense-online:')
+        SS.check_build(ix, rep, f, opn, online=True, slot_prefix='dense-online:')
+        rep.undecided('R-OPSUM', f.module.rel, '%s.update' % c.name, 'dense-online:%s:carry' % nc,
+                      'which segments are emitted now and which are carried to the next update (residual_start bookkeeping) is numeric and not decided', f.node.lineno)
+    rep.floor('abstract states of the online sliding-window merge step', nst, 36)
+    c = ops.get('TimedSince')
+    if c is not None:
+        rep.analysed(c.methods['update'])
+        SS.check_compose_online(ix, rep, c)
+    c = ops.get('Since')
+    if c is not None:
+        f = c.methods['update']
+        rep.undecided('R-OPSUM', f.module.rel, '%s.update' % c.name, 'dense-online:Since', 'carry-over of pending intervals is numeric and not summarised', f.node.lineno)
     explanation = (
         'Carry-over structure only. R-SIB: the eleven binary dense-time online operations (and/or/implies/iff/xor, + - * / pow log) have '
         'identical __init__ and update after normalisation, up to the kernel function, which must be the one of their own operator; the '
         'common form extends both operand buffers with the new batch and stores both remainders returned by the kernel back. R-ORD: the '
         'online merge kernel satisfies the per-ordering emission/advance contract (13 orderings). R-OPSUM: slot functions, unary value '
         'expressions and the once/historically scans equal the reference; unary pointwise operations are stateless, the scans keep their '
-        'state in self across updates. NOT decided: everything numeric about the pending intervals of once[a,b], historically[a,b], since, '
-        'since[a,b], and the `last` bookkeeping of the kernel.')
+        'state in self across updates. R-SEGSTEP/R-SEGBUILD: the merge step of the once[a,b]/historically[a,b] segment stack is evaluated on '
+        'every ordering of the segment ends and values consistent with the stack invariant (pop soundness, contiguity, pointwise value, '
+        'monotonicity), and the influence interval of sample k is (T[k]+begin, T[k+1]+end, V[k]) in affine normal form; R-COMPOSE: '
+        'since[a,b] = once[a,b](right) and historically[0,a](left since right) in update() and update_final(). NOT decided: which segments '
+        'are emitted in this update and which are carried over (residual_start), the untimed since, and the `last` bookkeeping of the kernel.')
     assumptions = ['observed while probing and outside static reach: once[0,1](a>=2) fed sample by sample differs from the whole-signal run at one instant; '
                    'no structural rule separates that code from a correct one, so it is documented in DESIGN.md and not claimed']
     return explanation, assumptions, 'one instance per sibling and method, per ordering, per summarised operator', {'exhaustive': True}
